@@ -223,10 +223,11 @@ class Prefixed(BaseModel):
         return float(self._value())
 
     def __neg__(self) -> "Prefixed":
-        return Prefixed.new(-self.number, self.prefix)
+        # Note `-number` and `abs(number)` round to the precision of the current decimal context. These do not.
+        return Prefixed.new(self.number.copy_negate(), self.prefix)
 
     def __abs__(self) -> "Prefixed":
-        return Prefixed.new(abs(self.number), self.prefix)
+        return Prefixed.new(self.number.copy_abs(), self.prefix)
 
     def __mul__(self, other) -> "Prefixed":
         if isinstance(other, Prefixed):
